@@ -55,6 +55,8 @@ def gen(seed, n, cast_p=0.0, path_args_p=0.0, oracle_fn=default_oracle):
     cases = []
     for _ in range(n):
         doc = g.document(4, 4)
+        if cast_p == 0.0 and g.r.random() < 0.2:
+            doc = g.share(doc)      # the same container object at several positions (no casts: nothing is written)
         rt = rg.rule(doc, cast_p=cast_p, path_args_p=path_args_p)
         c = make_case(rt, doc, oracle_fn)
         if c:
